@@ -88,7 +88,7 @@ def generate(rng, tier):
     cs = []
     for _ in range(n):
         u = rng.random()
-        scale = rng.choice([1e-2, 1.0, 1.0, 50.0, 1e4, 1e6])
+        scale = rng.choice([1e-9, 1e-6, 1e-2, 1.0, 1.0, 50.0, 1e4, 1e6])      # (surveys in tiny units .. projected metres)
         nobs, nf = rng.randint(1, 8), rng.randint(1, 6)
         off = rng.choice([0.0, 0.0, 1e3 * scale])
         oe = [off + G.dyadic(rng, 512, 6) * scale for _ in range(nobs)]
@@ -132,6 +132,9 @@ def generate(rng, tier):
     for c in list(cs):
         if c["fn"] in ("sjac", "spred", "vjac", "vpred") and rng.random() < 0.5:
             cs.append(dict(c, numba_src=True, kind=c["kind"] + "-numba-src", key="numba-src"))
+        elif c["fn"] == "sjac" and rng.random() < 0.5:
+            # the public jacobian's dtype argument: the same kernels (computed from the float64 coordinates), stored in single precision
+            cs.append(dict(c, dtype32=True, kind=c["kind"] + "-float32", key="float32"))
     return cs
 
 
@@ -171,6 +174,11 @@ def impl(case):
                     return _numba_src(fn, a)
                 if fn == "sjac":
                     oe, on, fe, fn_, md = a
+                    if case.get("dtype32"):
+                        j = vd.Spline(mindist=md).jacobian((np.array(oe), np.array(on)), (np.array(fe), np.array(fn_)), dtype="float32")
+                        if j.dtype != np.float32:
+                            raise RuntimeError("jacobian(dtype='float32') did not return a float32 matrix")
+                        return j.astype(float).tolist()
                     return vd.Spline(mindist=md).jacobian((np.array(oe), np.array(on)), (np.array(fe), np.array(fn_))).tolist()
                 if fn == "spred":
                     oe, on, shape2d, fe, fn_, md, forces = a
@@ -247,6 +255,8 @@ def compare(case, io, mo):
         return "diff:implementation failed: " + io[1]
     mv = _num(mo)
     tol = 1e-9 if case["fn"] in ("trend",) else 1e-11
+    if case.get("dtype32"):
+        tol = 1e-6
     if case["fn"] == "checker":
         tol = 1e-9       # sin/cos of large arguments
     return "ok" if _close(io, mv, tol) else f"diff:{str(io)[:150]} vs {str(mv)[:150]}"
@@ -272,24 +282,30 @@ def oracle(case, io):
             jac = io
         else:
             oe, on, shape2d, fe, fn_, md, forces = a
+        # tolerance RELATIVE to the kernel value (the property spans distances 1e-12 .. 1e8: an absolute tolerance would accept "0" for
+        # every small distance), plus the round-off of evaluating the kernel in double precision: below 1 the code's own form
+        # r (log(r**r) - r) carries an absolute error of about eps*r, above 1 the cancellation near r = e one of about eps*r^2
+        eps = 2.0 ** -52
+        rel = 4e-7 if case.get("dtype32") else 1e-9
         for i, (x, y) in enumerate(zip(oe, on)):
-            row = []
+            row, slack = [], []
             for j, (fx, fy) in enumerate(zip(fe, fn_)):
                 r = math.hypot(x - fx, y - fy) + md
                 row.append(g_spline(r))
+                slack.append(64 * eps * max(r, r * r) + (1e-45 if case.get("dtype32") else 0.0))
             if fn == "sjac":
                 for j, v in enumerate(row):
-                    if not (math.isfinite(jac[i][j]) and abs(jac[i][j] - v) <= 1e-9 * max(1.0, abs(v))):
+                    if not (math.isfinite(jac[i][j]) and abs(jac[i][j] - v) <= rel * abs(v) + slack[j]):
                         return f"jacobian[{i}][{j}] = {jac[i][j]} but r^2 (ln r - 1) (0 at r = 0) gives {v}"
             else:
                 v = sum(g * f for g, f in zip(row, forces))
                 sc = sum(abs(g * f) for g, f in zip(row, forces))
-                if not (abs(io[i] - v) <= 1e-9 * max(1.0, sc)):
+                if not (abs(io[i] - v) <= 1e-9 * sc + sum(abs(f) * t for f, t in zip(forces, slack))):
                     return f"prediction {i} = {io[i]} is not sum(force * g(distance)) = {v}"
         if fn == "sjac" and len(oe) <= 6:
             sh = 37.5
             j2 = vd.Spline(mindist=md).jacobian((np.array(oe) + sh, np.array(on) - sh), (np.array(fe) + sh, np.array(fn_) - sh))
-            if not np.allclose(j2, np.array(io), rtol=1e-9, atol=1e-9 * max(1.0, float(np.max(np.abs(io))))):
+            if not case.get("dtype32") and not np.allclose(j2, np.array(io), rtol=1e-9, atol=1e-9 * max(1.0, float(np.max(np.abs(io))))):
                 return "spline Jacobian changed under a common translation of data and force coordinates"
         return None
     if fn in ("vjac", "vpred"):
